@@ -688,7 +688,7 @@ pub fn run(ctx: &RunCtx) -> i32 {
     let meta = CheckMeta {
         property: "C18",
         level: "exploration",
-        rule: "generated histories of up to 60 steps (create / delete bucket, put with / without metadata, get, head, ranged get in every RFC 9110 form incl. suffix longer than the object, first >= length and bytes=-0, delete, copy within and across buckets, ListObjectsV2 with prefixes and start-after markers at, inside, just below and just above directory names, ListObjects, multipart create / part / complete / abort incl. parts by a second identity and one 5 MiB part) over 1-3 buckets and a universe of 8 keys (two of them sorting between a directory name and its contents) in which no key is a directory prefix of another, sizes 0..3 x 4096 (+1); executed through aws-sdk-s3 against s3s-fs behind S3Service::call and against a 60-line in-memory model; after every step only the clauses named in the statement are compared (content, user metadata, MD5 ETag of put / copied objects, RFC 9110 slice + Content-Range + Content-Length + 206 / 416, listing = existing keys under the prefix (after the marker) in order, multipart = parts in order with the initiation's metadata, foreign identity refused, deleted things gone). A history stops at its first disagreement. A cell is (operation, state class of the key before the step, range class).".into(),
+        rule: "generated histories of up to 60 steps (create / delete bucket, put with / without metadata, get, head, ranged get in every RFC 9110 form incl. suffix longer than the object, first >= length and bytes=-0, delete, copy within and across buckets, ListObjectsV2 with prefixes and start-after markers at, inside, just below and just above directory names, ListObjects, multipart create / part / complete / abort incl. parts by a second identity and one 5 MiB part) over 1-3 buckets and a universe of 8 keys (two of them sorting between a directory name and its contents) in which no key is a directory prefix of another, sizes 0..3 x 4096 (+1); executed through aws-sdk-s3 against s3s-fs behind S3Service::call and against a 60-line in-memory model; after every step only the clauses named in the statement are compared (content, user metadata, MD5 ETag of put / copied objects, RFC 9110 slice + Content-Range + Content-Length + 206 / 416, listing = existing keys under the prefix (after the marker) in order, multipart = parts in order with the initiation's metadata, foreign identity refused, deleted things gone). A history stops at its first disagreement. In-flight leg (shared with C19): uploads held open across other writes; content of every key checked before each overwrite and at the end; an intact upload must be acknowledged. A cell is (operation, state class of the key before the step, range class).".into(),
         assumptions: vec![
             "CopyObject follows S3's default COPY metadata directive (destination gets the source's user metadata)".into(),
             "error codes for absent things and DeleteBucket on a non-empty bucket are not part of the statement".into(),
